@@ -6,7 +6,7 @@
    invariant is really violated at the end.  With Weaken = "none" the same guide must NOT reach a violation
    (checked by the generator), which shows that the removed guard is what the attack needs.                     *)
 EXTENDS QBFT
-CONSTANT Guide          \* sequence of [name |-> STRING, to |-> 0..N, from |-> 0..N]  (0 = any)
+CONSTANT Guide          \* sequence of [name |-> STRING, to |-> 0..N, from |-> 0..N, round |-> 0..MaxRound]  (0 = any)
 VARIABLE pc
 gvars == <<st, sent, byzUsed, act, pc>>
 
@@ -16,6 +16,7 @@ GNext == /\ pc <= Len(Guide)
          /\ act'.name = Guide[pc].name
          /\ IF Guide[pc].to = 0 THEN TRUE ELSE act'.to = Guide[pc].to
          /\ IF Guide[pc].from = 0 THEN TRUE ELSE act'.from = Guide[pc].from
+         /\ IF Guide[pc].round = 0 THEN TRUE ELSE act'.round = Guide[pc].round
          /\ pc' = pc + 1
 GSpec == GInit /\ [][GNext]_gvars
 GuideCompleted == pc = Len(Guide) + 1
